@@ -3,6 +3,8 @@
 set -e
 cd "$(dirname "$0")/.."
 git merge --no-edit "$1" || true
+for f in $(git status --short | grep -E "^UU tools/checks/" | cut -c4-); do python3 tools/merge_check_json.py $f && git add $f; done
+if git status --short | grep -qE "^UU DESIGN.md"; then sed -i "/^<<<<<<< HEAD$/d; /^=======$/d; /^>>>>>>> wip\\//d" DESIGN.md; git add DESIGN.md; fi
 for f in MANIFEST.json lean/DriverMain.lean known_findings.json $(git status --short | grep -E "^(UU|AA) evidence/" | cut -c4-); do
   if git status --short | grep -qE "^(UU|AA) $f"; then git checkout --ours $f; git add $f; fi
 done
